@@ -669,18 +669,48 @@ func PrintAllTypes() {
 func PrintTargetClassExtends() {
 	className := getTargetClass()
 
-	for classNode, parents := range base.ClassInheritanceMap {
-		if classNode.Class == className {
-			for _, parent := range parents {
-				switch parent.Class {
-				case "":
-					fmt.Println("Object")
-				default:
-					fmt.Println(parent.Class)
-				}
-			}
+	// several frames may hold a class of that name: take the first in frame order,
+	// not the first the map iteration happens to yield
+	var targetNodes []base.ClassNode
 
-			return
+	for classNode := range base.ClassInheritanceMap {
+		if classNode.Class == className {
+			targetNodes = append(targetNodes, classNode)
+		}
+	}
+
+	if len(targetNodes) == 0 {
+		return
+	}
+
+	slices.SortFunc(targetNodes, func(a, b base.ClassNode) int {
+		if a.Frame != b.Frame {
+			if a.Frame < b.Frame {
+				return -1
+			}
+			return 1
+		}
+		if a.IsInclude != b.IsInclude {
+			if !a.IsInclude {
+				return -1
+			}
+			return 1
+		}
+		if a.IsExtend != b.IsExtend {
+			if !a.IsExtend {
+				return -1
+			}
+			return 1
+		}
+		return 0
+	})
+
+	for _, parent := range base.ClassInheritanceMap[targetNodes[0]] {
+		switch parent.Class {
+		case "":
+			fmt.Println("Object")
+		default:
+			fmt.Println(parent.Class)
 		}
 	}
 }
